@@ -6,14 +6,23 @@ ID = "C05"
 impl_prop = "EV"
 SRC_FACTS = []
 COQ_SAMPLE = 40
+RULE_LOADS = (";  family `failed_import` (exhaustive): an import that fails - loader error, missing environment, three kinds of "
+              "unparsable definition, or a good definition whose load is the faulted call - listed 2-3 times, mixed with a good "
+              "import, and reached through 2-3 import paths, open and check mode; ALL loads must have distinct names except in "
+              "the known class (a failed load repeated); controls: a good import listed 3 times / through 3 paths is loaded once")
 RULE = ("worlds of 1..3 environments whose values mix literals, references (10% dangling), built-ins, plaintext and "
         "ciphertext secrets and fn::open sites nested in objects, arrays and other providers' inputs; every site has its own "
         "provider (input schema: any / open record / closed record; behaviour echo / constant / fail / unknown provider); "
-        "open and check mode; observable = the collaborator call log.  non-trivial = the world has at least one fn::open site")
+        "open and check mode; observable = the collaborator call log.  non-trivial = the world has at least one fn::open site"
+        + RULE_LOADS)
 ASSUMPTIONS = ["provider input schemas are drawn from {any, record of typed properties with required/closed}; the full "
                "JSON-Schema vocabulary of the gate is C08's check",
-               "a LoadEnvironment that fails is retried by the next import of the same name (nothing is memoised on failure); "
-               "'loaded at most once' is checked for loads that succeed"]
+               "'loaded at most once' is checked on the implementation's log for ALL loads; the only excuse is the known finding "
+               "C05-failed-load-retried (every load that is followed by another load of the same name was a failed one, and the "
+               "model predicts the implementation's log exactly)",
+               "root environments named \"<yaml>\" (esc.AnonymousEnvironmentName) are generated only in the measurement family "
+               "`yaml_root` (Model/Eval.v replaces the root name only when it is \"\"; environment.go also when it is \"<yaml>\"): the "
+               "specification oracle decides on them, the model comparison is reported in `distribution` and does not decide"]
 TRUSTED = ["site metadata (provider name unique per fn::open expression, containing environment, literal inputs) comes from "
            "the generator"]
 
@@ -80,9 +89,140 @@ def merged_unknown_family(rng, tier):
     return cases
 
 
+NOPARSE_TEXTS = ["values: [1, 2\n", "values: 3\n", "values: {a: {fn::open: 1}}\n"]
+
+
+def failed_import_family(rng, tier):
+    """imports that FAIL (loader error / missing / unparsable / faulted call), listed several times and reached through
+    several import paths: every listing loads them again (known finding C05-failed-load-retried); good imports as controls"""
+    cases = []
+    site_vals = [("v", ("open", "p", ("obj", [("k", ("str", "v"))])))]
+    provs = {"p": {"in": "always", "out": "always", "beh": "echo"}, "q": {"in": "always", "out": "always", "beh": "echo"}}
+    good = {"kind": "def", "def": {"imports": [], "values": [("g", ("open", "q", ("obj", [("k", ("str", "w"))])))]}}
+    sites = [{"prov": "p", "env": "root", "literal_inputs": [("k", ("str", "v"))]}]
+    gsite = {"prov": "q", "env": "good", "literal_inputs": [("k", ("str", "w"))]}
+    kinds = [("fail", {"kind": "fail"}), ("missing", None)] + [("noparse%d" % i, {"kind": "noparse", "text": t}) for i, t in enumerate(NOPARSE_TEXTS)]
+
+    def mk(envs, rimports, extra_sites, check, fault=None):
+        c = {"name": "root", "def": {"imports": rimports, "values": list(site_vals)}, "envs": envs, "provs": provs,
+             "sites": sites + extra_sites, "check": check, "show": False, "family": "failed_import"}
+        if fault is not None:
+            c["fault"] = fault
+        return c
+
+    listings = [[("bad", True)] * 2, [("bad", True)] * 3, [("bad", True), ("bad", False), ("bad", True)],
+                [("bad", True), ("good", True), ("bad", True)], [("good", True), ("bad", True), ("good", True), ("bad", False)]]
+    for kn, kd in kinds:
+        for li in listings:
+            for check in (False, True):
+                envs = {"good": good}
+                if kd is not None:
+                    envs["bad"] = kd
+                uses_good = any(n == "good" for n, _ in li)
+                if not uses_good:
+                    del envs["good"]
+                cases.append(mk(envs, li, [gsite] if uses_good else [], check))
+        # import paths: root -> a -> bad, root -> b -> bad (, root -> bad, root -> c -> b -> bad)
+        for shape in range(4):
+            envs = {"a": {"kind": "def", "def": {"imports": [("bad", True)], "values": [("x", ("num", "1"))]}},
+                    "b": {"kind": "def", "def": {"imports": [("bad", shape != 1)], "values": [("y", ("num", "2"))]}}}
+            rimports = [("a", True), ("b", True)]
+            if shape == 2:
+                rimports = [("a", True), ("bad", True), ("b", True)]
+            if shape == 3:
+                envs["c"] = {"kind": "def", "def": {"imports": [("b", True), ("bad", True)], "values": [("w", ("num", "3"))]}}
+                rimports = [("a", True), ("c", True)]
+            if kd is not None:
+                envs["bad"] = kd
+            cases.append(mk(envs, rimports, [], False))
+            cases.append(mk(envs, rimports, [], True))
+    # controls and the faulted call: a GOOD environment listed three times and reached through three paths; without a fault
+    # it is loaded once; with the fault on its first load it is loaded twice (the failed load, then the successful one)
+    envs3 = {"good": good,
+             "a": {"kind": "def", "def": {"imports": [("good", True)], "values": [("x", ("num", "1"))]}},
+             "b": {"kind": "def", "def": {"imports": [("good", True), ("a", True)], "values": [("y", ("num", "2"))]}}}
+    for rimports in ([("good", True)] * 3, [("a", True), ("b", True), ("good", True)], [("b", True), ("a", True)]):
+        for check in (False, True):
+            for fault in [None] + list(range(0, 9)):
+                cases.append(mk(envs3, rimports, [gsite], check, fault))
+    # random mixtures
+    n = 400 if tier == "thorough" else 40
+    for i in range(n):
+        r = rng.fork("fi%d" % i)
+        names = ["e0", "e1", "e2", "e3"]
+        envs = {}
+        for j, nm in enumerate(names):
+            k = r.below(6)
+            if k == 0:
+                envs[nm] = {"kind": "fail"}
+            elif k == 1:
+                envs[nm] = {"kind": "noparse", "text": r.choice(NOPARSE_TEXTS)}
+            elif k == 2:
+                pass                                    # missing
+            else:
+                imps = [(r.choice(names[:j] + ["zz"]), not r.chance(1, 5)) for _ in range(r.below(4))] if j else []
+                envs[nm] = {"kind": "def", "def": {"imports": imps, "values": [("k%d" % j, ("num", str(j)))]}}
+        rimports = [(r.choice(names), not r.chance(1, 5)) for _ in range(2 + r.below(4))]
+        cases.append(mk(envs, rimports, [], r.chance(1, 4), r.below(8) if r.chance(1, 3) else None))
+    return cases
+
+
+def yaml_root_family(rng, tier):
+    """MEASUREMENT (does not decide): root environments named "<yaml>" - environment.go treats that name as anonymous and
+    tells providers of imported environments the name of the import; Model/Eval.v only knows "" as anonymous"""
+    cases = []
+    n = 60 if tier == "thorough" else 20
+    for i in range(n):
+        g = G.RichGen(rng.fork("y%d" % i), bad_refs=False, nonobject_inputs=False, faulty=False)
+        c = g.world(depth=2)
+        c["name"] = "<yaml>"
+        for s in c["sites"]:
+            if s["env"] == "root" or s["env"] not in c["envs"]:
+                s["env"] = "<yaml>"
+        c["check"] = False
+        c["show"] = rng.chance(1, 2)
+        c["family"] = "yaml_root"
+        cases.append(c)
+    # the minimal one: <yaml> imports imp, imp opens a provider and reads context.rootEnvironment.name
+    envs = {"imp": {"kind": "def", "def": {"imports": [], "values": [("b", ("open", "q", ("obj", [("k", ("str", "w"))])))]}},
+            "mid": {"kind": "def", "def": {"imports": [("imp", True)], "values": [("m", ("num", "1"))]}}}
+    for rimports in ([("imp", True)], [("mid", True)], [("mid", True), ("imp", True)]):
+        cases.append({"name": "<yaml>", "def": {"imports": rimports, "values": [("a", ("open", "p", ("obj", [("k", ("str", "v"))])))]},
+                      "envs": envs, "provs": {"p": {"in": "always", "out": "always", "beh": "echo"},
+                                              "q": {"in": "always", "out": "always", "beh": "echo"}},
+                      "sites": [{"prov": "p", "env": "<yaml>", "literal_inputs": [("k", ("str", "v"))]},
+                                {"prov": "q", "env": "imp", "literal_inputs": [("k", ("str", "w"))]}],
+                      "check": False, "show": False, "family": "yaml_root"})
+    return cases
+
+
+MEASURE = {}
+
+
+def extra_checks(ctx):
+    """the `yaml_root` measurement: the specification oracle decides (a failure is a violation with a concrete input); the
+    model-vs-implementation comparison is only counted (known deviation of Model/Eval.v, see Proofs/EvalLogRootName.v)"""
+    from .. import driver as D
+    import sys
+    cases = yaml_root_family(ctx["rng"].fork("yaml"), ctx["tier"])
+    r = D.evaluate(sys.modules[__name__], cases, tag="yaml", sample=5)
+    opens_in_imports = 0
+    for c, o in zip(cases, r["obs"]):
+        opens_in_imports += sum(1 for e in (o.get("log") or []) if e[0] == "open" and e[4] != "<yaml>")
+    MEASURE["yaml_root"] = {"cases": len(cases), "model_mismatches": len(r["mismatch"]), "spec_failures": len(r["spec_fail_new"]),
+                            "opens_inside_imports": opens_in_imports,
+                            "roots_told_to_import_providers": sorted(set(e[3] for o in r["obs"] for e in (o.get("log") or [])
+                                                                       if e[0] == "open" and e[4] != "<yaml>"))[:8]}
+    viol = []
+    for i in r["spec_fail_new"][:1]:
+        viol.append({"kind": "spec-violation-on-implementation", "case": D.strip(cases[i]), "impl_obs": r["obs"][i],
+                     "note": "root environment named <yaml>"})
+    return viol
+
+
 def gen(rng, tier):
     n = 5000 if tier == "thorough" else 450
-    cases = merged_unknown_family(rng, tier)
+    cases = failed_import_family(rng, tier) + merged_unknown_family(rng, tier)
     for c in G.flag_matrix_worlds():
         cases.append(dict(c, check=False, show=True))
         cases.append(dict(c, check=True, show=False))
@@ -110,7 +250,8 @@ def line(c, o):
 
 
 def describe(c):
-    return {"root": G.render_env(c["def"]), "imports": {n: G.render_env(e["def"]) for n, e in c["envs"].items()},
+    return {"root": G.render_env(c["def"]), "imports": {n: (G.render_env(e["def"]) if e["kind"] == "def" else e.get("text", e["kind"])) for n, e in c["envs"].items()},
+            "fault": c.get("fault"),
             "providers": {k: {"in": v["in"], "beh": v["beh"]} for k, v in c["provs"].items()}, "check": c.get("check")}
 
 
@@ -123,8 +264,15 @@ def shrink(c):
 
 
 def distribution(cases, r):
-    d = {"open_events": 0, "check_mode": 0, "sites": 0, "with_errors": 0, "crash_or_panic": 0, "loaderr": 0}
+    d = {"open_events": 0, "check_mode": 0, "sites": 0, "with_errors": 0, "crash_or_panic": 0, "loaderr": 0,
+         "load_events": 0, "cases_with_a_repeated_load": 0, "failed_import_family": 0,
+         "excused_by_known_class_C05-failed-load-retried": len(r["spec_fail_known"]),
+         "measurement_yaml_root": MEASURE.get("yaml_root")}
     for c, o in zip(cases, r["obs"]):
+        loads = [e[1] for e in (o.get("log") or []) if e[0] == "load"]
+        d["load_events"] += len(loads)
+        d["cases_with_a_repeated_load"] += 1 if len(set(loads)) < len(loads) else 0
+        d["failed_import_family"] += 1 if c.get("family") == "failed_import" else 0
         d["sites"] += len(c["sites"])
         d["check_mode"] += 1 if c.get("check") else 0
         d["open_events"] += sum(1 for e in (o.get("log") or []) if e[0] == "open")
